@@ -464,6 +464,7 @@ func runC03(c *wk.Ctx) {
 				return
 			}
 			cfg := gen.Full()
+			cfg.TypedVariants = true
 			var shape *gen.Shape
 			if r.Bool() {
 				shape = gen.GenObjectStandalone(r, cfg)
